@@ -22,20 +22,22 @@ EXEMPT = {
 
 
 class St3:
-    __slots__ = ('nz', 'rel', 'ints', 'back', 'pend')
+    __slots__ = ('nz', 'rel', 'ints', 'back', 'pend', 'holds')
 
-    def __init__(self, nz=None, rel=None, ints=None, back=None, pend=None):
+    def __init__(self, nz=None, rel=None, ints=None, back=None, pend=None, holds=None):
         self.nz = nz or {}
         self.rel = rel or {}
         self.ints = ints or {}
         self.back = back or {}     # bytes of the same string known to lie behind the cursor
         self.pend = pend or {}     # result of a search (strstr, strchr): that many non-terminator bytes *if* it is not NULL
+        self.holds = holds or {}   # scalar local -> (cursor key, offset): the local holds the byte at cursor[offset]
 
     def copy(self):
-        return St3(dict(self.nz), dict(self.rel), dict(self.ints), dict(self.back), dict(self.pend))
+        return St3(dict(self.nz), dict(self.rel), dict(self.ints), dict(self.back), dict(self.pend), dict(self.holds))
 
     def __eq__(self, o):
-        return self.nz == o.nz and self.rel == o.rel and self.ints == o.ints and self.back == o.back and self.pend == o.pend
+        return self.nz == o.nz and self.rel == o.rel and self.ints == o.ints and self.back == o.back and self.pend == o.pend \
+            and self.holds == o.holds
 
     def __ne__(self, o):
         return not self.__eq__(o)
@@ -47,7 +49,8 @@ def join3(a, b):
     ints = {k: a.ints[k] for k in set(a.ints) & set(b.ints) if a.ints[k] == b.ints[k]}
     back = {k: min(a.back[k], b.back[k], 64) for k in set(a.back) & set(b.back)}
     pend = {k: min(a.pend[k], b.pend[k]) for k in set(a.pend) & set(b.pend)}
-    return St3(nz, rel, ints, back, pend)
+    holds = {k: a.holds[k] for k in set(a.holds) & set(b.holds) if a.holds[k] == b.holds[k]}
+    return St3(nz, rel, ints, back, pend, holds)
 
 
 class Analyzer3:
@@ -129,7 +132,16 @@ class Analyzer3:
             ix = strip_casts(idx)
             ok = False
             why = 'index not related to the string length'
-            if ix.get('k') == 'ref' and c == 0:
+            extra = 0
+            if ix.get('k') == 'bin' and ix['op'] == '+' and const_val(ix['r']) is not None and strip_casts(ix['l']).get('k') == 'ref':
+                extra, ix = const_val(ix['r']), strip_casts(ix['l'])
+            elif ix.get('k') == 'bin' and ix['op'] == '+' and const_val(ix['l']) is not None and strip_casts(ix['r']).get('k') == 'ref':
+                extra, ix = const_val(ix['l']), strip_casts(ix['r'])
+            if ix.get('k') == 'ref' and c == 0 and extra > 0:
+                d = st.rel.get((key, ix['d']))
+                ok = d is not None and d >= extra
+                why = 'proved %s bytes beyond index %s are inside the string' % (d, ix['n']) if d is not None else why
+            elif ix.get('k') == 'ref' and c == 0:
                 d = st.rel.get((key, ix['d']))
                 if d is not None and d >= 0:
                     ok = True
@@ -141,6 +153,9 @@ class Analyzer3:
                       'read:%s[%s]' % (key, expr_str(ix)))
 
     def advance(self, st, key, c, node, record):
+        for d, (k2, off) in list(st.holds.items()):
+            if k2 == key:
+                st.holds[d] = (k2, off - c)
         nz = st.nz.get(key, NEG)
         if record and key in self.tracked:
             ok = c <= nz if c > 0 else False
@@ -259,6 +274,8 @@ class Analyzer3:
         return 1 if (c is not None and c != 0) else 0
 
     def assign(self, st, name, rhs, record=False, node=None):
+        for d in [d for d, (k2, _o) in st.holds.items() if k2 == name]:
+            del st.holds[d]
         st.nz.pop(name, None)
         st.back.pop(name, None)
         st.pend.pop(name, None)
@@ -285,7 +302,62 @@ class Analyzer3:
                           nz > NEG and pn[1] <= nz, 'proved %s non-terminator byte(s) at %s' % (nz if nz > NEG else 'no', pn[0]),
                           'place:%s=%s+%d' % (name, pn[0], pn[1]))
 
+    def copies_of(self, key):
+        """char pointers of this function that are initialised once with the value of `key` (offset 0), never assigned again, while
+        `key` itself is modified at most by the statements that follow all reads through the copy: approximated by "key is only ever
+        modified by += / = at statements from which no read through the copy is reachable"""
+        out = []
+        fn = self.fn
+        for d in fn.locals():
+            if 'init' not in d or not self.is_charp(d['ty']):
+                continue
+            pn = self.norm(d['init'])
+            if not pn or pn != (key, 0):
+                continue
+            name = d['n']
+            if any(self.key(a['l']) == name for a in fn.nodes() if a.get('k') == 'bin' and a.get('op') in ASSIGN_OPS) or \
+                    any(x.get('k') == 'un' and x.get('op') in ('post++', 'post--', 'pre++', 'pre--') and self.key(x['e']) == name for x in fn.nodes()):
+                continue
+            # every modification of `key` comes after the last use of the copy
+            cfg = self.cfg
+            mods = set()
+            uses = set()
+            for n in cfg.nodes:
+                for ev in node_effects(n):
+                    if ev.kind in ('store', 'incdec') and ev.lhs is not None and self.key(ev.lhs) == key:
+                        mods.add(n.id)
+                    if ev.kind == 'call' and any(self.key(strip_casts(x).get('e', {})) == key if strip_casts(x).get('k') == 'un' else
+                                                 (strip_casts(x).get('k') == 'ref' and ('*' + strip_casts(x)['n']) == key) for x in ev.node['args']):
+                        mods.add(n.id)
+                    if ev.kind == 'load':
+                        acc = access(ev.node)
+                        if acc is not None:
+                            b = self.norm(acc[0])
+                            if b and b[0] == name:
+                                uses.add(n.id)
+            if all(not (uses & (cfg.reachable(m) - {m})) for m in mods):
+                out.append(name)
+        return out
+
+    def held_position(self, rhs, st):
+        """(key, offset) when rhs is a read of key[offset] with a constant offset, or a scalar that holds such a byte"""
+        r = strip_casts(rhs)
+        if r.get('k') == 'ref' and r.get('d') in st.holds:
+            return st.holds[r['d']]
+        if r.get('k') in ('idx', 'un') and access(r) is not None:
+            base, idx = access(r)
+            pn = self.norm(base)
+            if pn and isinstance(idx, int) and pn[0] in self.tracked:
+                return (pn[0], pn[1] + idx)
+        if r.get('k') == 'bin' and r.get('op') == '=':
+            return self.held_position(r['r'], st)
+        return None
+
     def assign_int(self, st, did, rhs):
+        hp = self.held_position(rhs, st)
+        st.holds.pop(did, None)
+        if hp is not None:
+            st.holds[did] = hp
         for k in [k for k in st.rel if k[1] == did]:
             del st.rel[k]
         st.ints.pop(did, None)
@@ -380,6 +452,24 @@ class Analyzer3:
                     st.nz[key] = slack
                     st.back.pop(key, None)
                 else:
+                    r_ = strip_casts(a['r'])
+                    twin = None
+                    if op == '+=' and r_.get('k') == 'ref':
+                        for k2 in self.copies_of(key):
+                            if st.rel.get((k2, r_['d']), -1) >= 0:
+                                twin = k2
+                    if twin is not None:
+                        # the count was measured through an unmoved copy of this cursor (const char * const s = *input; .. *input += n)
+                        slack = st.rel[(twin, r_['d'])]
+                        if record and key in self.tracked:
+                            self.site('BND3', a, 'advance of %s by %s stays inside the string' % (key, r_['n']), True,
+                                      '%s counts bytes in front of the terminator, measured through %s which still equals %s' % (r_['n'], twin, key),
+                                      'adv:%s:spanvar' % key)
+                        for k in [k for k in st.rel if k[0] == key]:
+                            del st.rel[k]
+                        st.nz[key] = slack
+                        st.back.pop(key, None)
+                        return
                     if record and key in self.tracked:
                         self.site('BND3', a, 'advance of %s by a computed amount' % key, False,
                                   'cannot show the cursor stays inside the string', 'adv:%s:var' % key)
@@ -389,7 +479,17 @@ class Analyzer3:
         if l.get('k') == 'ref' and self.u.ty(l['ty'])['c'] == 'int':
             if op == '=':
                 self.assign_int(st, l['d'], a['r'])
+            elif op in ('+=', '-=') and const_val(a['r']) is not None:
+                delta = const_val(a['r']) if op == '+=' else -const_val(a['r'])
+                st.holds.pop(l['d'], None)
+                for k in [k for k in st.rel if k[1] == l['d']]:
+                    st.rel[k] -= delta
+                    if st.rel[k] < 0:
+                        del st.rel[k]
+                if l['d'] in st.ints:
+                    st.ints[l['d']] += delta
             else:
+                st.holds.pop(l['d'], None)
                 for k in [k for k in st.rel if k[1] == l['d']]:
                     del st.rel[k]
                 st.ints.pop(l['d'], None)
@@ -481,7 +581,14 @@ class Analyzer3:
                 st.nz[key] = k + 1
         else:
             ix = strip_casts(idx)
-            if ix.get('k') == 'ref' and c == 0:
+            extra = 0
+            if ix.get('k') == 'bin' and ix['op'] == '+' and const_val(ix['r']) is not None and strip_casts(ix['l']).get('k') == 'ref':
+                extra, ix = const_val(ix['r']), strip_casts(ix['l'])
+            if ix.get('k') == 'ref' and c == 0 and extra > 0:
+                d = st.rel.get((key, ix['d']))
+                if d is not None and d == extra:
+                    st.rel[(key, ix['d'])] = extra + 1
+            elif ix.get('k') == 'ref' and c == 0:
                 d = st.rel.get((key, ix['d']))
                 if d is not None and d == 0:
                     st.rel[(key, ix['d'])] = 1
@@ -489,9 +596,34 @@ class Analyzer3:
                     st.nz[key] = nz + 1
         return st
 
+    def nonzero_pos(self, key, off, st):
+        st = st.copy()
+        nz = st.nz.get(key, NEG)
+        if key in self.tracked and nz > NEG and 0 <= off <= nz and nz < off + 1:
+            st.nz[key] = off + 1
+        return st
+
     def refine_cond(self, e, truth, st):
         e = strip_casts(e)
         k = e.get('k')
+        # a scalar local that holds the byte under a cursor stands for that byte
+        def held(x):
+            x = strip_casts(x)
+            if x.get('k') == 'bin' and x.get('op') == '=' and strip_casts(x['l']).get('k') == 'ref':
+                x = strip_casts(x['l'])          # (c = p[0]) != 0: the store has been applied, the value is the variable's
+            if x.get('k') == 'ref' and x.get('d') in st.holds:
+                return st.holds[x['d']]
+            return None
+        if held(e) is not None:
+            return self.nonzero_pos(held(e)[0], held(e)[1], st) if truth else st
+        ph = cmp_parts(e)
+        if ph is not None and held(ph[0]) is not None:
+            x_, op_, c_ = ph
+            if not truth:
+                op_ = {'<': '>=', '>=': '<', '>': '<=', '<=': '>', '==': '!=', '!=': '=='}[op_]
+            if (op_ == '==' and c_ != 0) or (op_ == '!=' and c_ == 0) or (op_ == '>' and c_ >= 0) or (op_ == '>=' and c_ > 0):
+                return self.nonzero_pos(held(x_)[0], held(x_)[1], st)
+            return st
         # NULL test of a search result
         tested, nonnull = None, None
         if k == 'ref' and self.key(e) in st.pend:
@@ -598,8 +730,6 @@ def _read_keys(u, fn):
                     pn = probe.norm(acc[0])
                     if pn:
                         written.add(pn[0])
-    # cursors that are only advanced (a skipping helper) count as read cursors; pure write cursors do not
-    keys = keys | (adv - written)
     # a cursor that a read cursor is pointed at (char *c = *input + 2; ... *input = c) and one that receives a read
     # cursor back are read cursors too
     copies = []
@@ -613,6 +743,16 @@ def _read_keys(u, fn):
                 pn = probe.norm(ev.rhs)
                 if pn:
                     copies.append((ev.lhs['n'], pn[0]))
+    # what is written through a copy of a cursor is written through that cursor (char * const d = *output; d[i] = ..; *output += n)
+    changed = True
+    while changed:
+        changed = False
+        for (dst, src) in copies:
+            if dst in written and src not in written and src not in keys:
+                written.add(src)
+                changed = True
+    # cursors that are only advanced (a skipping helper) count as read cursors; pure write cursors do not
+    keys = keys | (adv - written)
     changed = True
     while changed:
         changed = False
